@@ -182,11 +182,6 @@ theorem derefChildren_roots_next : ∀ (fuel : Nat) (cs : List Addr) (h h' : Hea
 
 /-! ### what processing a queued commit does -/
 
-/-- the result of an operation, or the unchanged state if it was rejected -/
-def okOr {α : Type} (a : α) : Except Err α → α
-  | .ok a' => a'
-  | .error _ => a
-
 def applyPending (v : Variant) (h : Heap K D) : Pending K D → Heap K D
   | .insert k t n0 _ _ => insertTreeAt v h n0 k t
   | .ref k => okOr h (referenceTree v h k)
